@@ -5,7 +5,15 @@ from harness.scen import call, LOOK_TO
 class C15(scen.WorldProp):
     id = "C15"
     lean_module = "Wheatley.Props.C15"
-    theorems = []
+    theorems = ["Wheatley.C15.who_leads",
+                "Wheatley.C15.anchor_is_look_to_plus_3",
+                "Wheatley.C15.wheatley_leads",
+                "Wheatley.C15.human_leads",
+                "Wheatley.C15.leader_turn_is_pull_off",
+                "Wheatley.C15.pull_off_only_polls",
+                "Wheatley.C15.only_leader_anchors",
+                "Wheatley.C15.leader_anchors",
+                "Wheatley.C15.first_row_from_leader"]
     level_text = ("theorems (any ordered field): initialise_line anchors the line at Look To + 3 s when Wheatley leads "
                   "and at the 'not yet' sentinel when a human leads; with the sentinel a user-controlled turn is the "
                   "pull-off loop, which cannot end before the leader's strike re-anchors the line at that strike's "
@@ -35,7 +43,7 @@ class C15(scen.WorldProp):
                 others = others[1:]
             ps = rng.choice([60, 120, 178])
             I = scen.interval(ps, N)
-            t0 = 1000.0 + rng.random()
+            t0 = 1000.3 + rng.random()      # (after wait_loaded: the main loop is running)
             d = rng.choice([0.0, 0.5, 1.5, 2.9, 3.0, 3.7, 8.0, 30.0, 120.0]) + rng.random() * 0.3
             t_lead = t0 + d
             events = [call(t0, LOOK_TO)]
@@ -84,6 +92,10 @@ class C15(scen.WorldProp):
         # the rest of row 0 is placed from the leader's strike when nobody else is heard first
         if not req["early_others"]:
             heard = t_lead + sc.get("latency", 0.001)
+            for tb, o in reply["obs"]:
+                if o[0] == "r_bell" and o[1] == opening[0]:
+                    heard = scen.b2f(tb)     # the instant Wheatley's handler ran
+                    break
             n_seen = 0
             seen = set()
             for (t, b, h) in rings:
